@@ -125,3 +125,68 @@ func Words(words ...string) []psref.Tok {
 	}
 	return out
 }
+
+// NestedForall builds a statement that enumerates one dictionary and, inside
+// the body, other dictionaries (nested two or three deep, different or the
+// same, smaller and larger than the outer one), with bodies whose effect does
+// not depend on the order of enumeration: every pair handed to a body is
+// stored into a collecting dictionary of that level and a counter is advanced.
+// Afterwards the collecting dictionaries hold exactly the entries of the
+// enumerated ones and the counters the products of the sizes - if and only if
+// every enumeration visited every entry once, whatever ran inside its body.
+func NestedForall(draw func(n int, label string) int) []psref.Tok {
+	keys := []string{"a", "b", "c", "d", "e", "f", "g", "h", "i", "j", "k", "l", "m", "n", "o", "p"}
+	dict := func(level int) []psref.Tok {
+		n := []int{1, 2, 3, 4, 5, 7, 9, 12}[draw(8, "fasize")]
+		if level > 0 && draw(4, "faempty") == 0 {
+			n = 0
+		}
+		off := draw(len(keys), "fakeyoff")
+		toks := []psref.Tok{tx("<<")}
+		for i := 0; i < n; i++ {
+			toks = append(toks, tl(keys[(off+i)%len(keys)]), ti(int64(10*level+i)))
+		}
+		return append(toks, tx(">>"))
+	}
+	marker := []psref.Tok{tl("orderfree"), tx("pop")}
+	collect := func(level int) []psref.Tok {
+		o, c := "fo"+string(rune('0'+level)), "fn"+string(rune('0'+level))
+		return []psref.Tok{tx(o), ti(3), ti(1), tx("roll"), tx("put"), tl(c), tx(c), ti(1), tx("add"), tx("def")}
+	}
+	depth := 2 + draw(2, "fadepth")
+	var pre []psref.Tok
+	for l := 0; l < depth; l++ {
+		pre = append(pre, tl("fo"+string(rune('0'+l))), ti(16), tx("dict"), tx("def"), tl("fn"+string(rune('0'+l))), ti(0), tx("def"))
+	}
+	same := draw(5, "fasame") == 0 // the inner loops run over the outer dictionary itself
+	if same {
+		pre = append(pre, tl("fd"))
+		pre = append(pre, dict(0)...)
+		pre = append(pre, tx("def"))
+	}
+	var build func(level int) []psref.Tok
+	build = func(level int) []psref.Tok {
+		body := append([]psref.Tok{}, marker...)
+		inner := collect(level)
+		if level+1 < depth {
+			if draw(2, "fabefore") == 0 {
+				body = append(body, inner...)
+				body = append(body, build(level+1)...)
+			} else {
+				// the pair stays on the stack while the inner loop runs
+				body = append(body, build(level+1)...)
+				body = append(body, inner...)
+			}
+		} else {
+			body = append(body, inner...)
+		}
+		var src []psref.Tok
+		if same {
+			src = []psref.Tok{tx("fd")}
+		} else {
+			src = dict(level)
+		}
+		return append(src, psref.TP(body...), tx("forall"))
+	}
+	return append(pre, build(0)...)
+}
